@@ -507,6 +507,9 @@ class DatasetProcessor:
                 logger.info("To keep these intermediate files for debug purposes use --keep_tmp flag")
 
         total_assignments, polya_found, self.all_read_groups = self.load_read_info(saves_file)
+        if self.args.read_assignments and self.args.read_group == "file_name":
+            # restarting from saved assignments: the input files are not listed, every file of the saved run is a read group
+            self.args.use_technical_replicas = len(self.all_read_groups) > 1
 
         polya_fraction = polya_found / total_assignments if total_assignments > 0 else 0.0
         logger.info("Total assignments used for analysis: %d, polyA tail detected in %d (%.1f%%)" %
